@@ -2,6 +2,7 @@ package main
 
 import (
 	"fmt"
+	"strings"
 
 	"verif/harness/dict"
 
@@ -835,6 +836,20 @@ func init() {
 						}
 					}
 				}
+			}
+		}
+		// valid multi-octet text at many lengths: the number of characters and the number of octets differ by a
+		// factor of two, three and four (a limit applied to one and a cut applied to the other)
+		for _, ch := range []string{"\u00e9", "\u8a9e", "\U0001F600"} {
+			for _, nchar := range []int{8, 16, 17, 20, 24, 31, 32, 33, 44, 48, 63, 64, 65, 85} {
+				tx := toL([]byte(strings.Repeat(ch, nchar)))
+				if len(tx) > 255 {
+					continue
+				}
+				scriptRT(s, abs.V{"k": "SDES", "chunks": abs.L{abs.V{"src": abs.L{1, 2, 3, 4}, "items": abs.L{abs.V{"t": 1, "text": tx}, abs.V{"t": 7, "text": tx}}}}})
+				scriptRT(s, abs.V{"k": "BYE", "srcs": abs.L{abs.L{1, 2, 3, 4}}, "reason": tx})
+				scriptRT(s, abs.V{"k": "CP", "pkts": abs.L{abs.V{"k": "RR", "ssrc": abs.L{1, 2, 3, 4}, "reports": abs.L{}, "ext": abs.L{}},
+					abs.V{"k": "SDES", "chunks": abs.L{abs.V{"src": abs.L{1, 2, 3, 4}, "items": abs.L{abs.V{"t": 1, "text": tx}}}}}, abs.V{"k": "BYE", "srcs": abs.L{abs.L{1, 2, 3, 4}}, "reason": tx}}})
 			}
 		}
 		// texts that end in a multi-octet character cut short
